@@ -6,7 +6,7 @@ def run(ctx):
     if not ctx.want("R2"):
         return
     rs = ctx.rule("R2", "analysing a term leaves the cached theories of its sub-terms unchanged")
-    for res in c13_deep.results():
+    for res in c13_deep.results(ctx.tier):
         for shape, kind, detail, result in res:
             if kind == "stale":
                 ctx.finding(rs, "TheoryOracle|cached-answer-mutated|%s" % shape,
